@@ -495,6 +495,14 @@ def findWrappedNoise (opTypes : List Kind) (mapping : NoiseMapFor) : List NoiseM
 def unwrapList (operations : List Kind) (noise : List NoiseM) : List (Kind × NoiseM) :=
   ((List.range operations.length).map fun i => (operations.getD i .identity, noise.getD i .none)).reverse
 
+/-- `OneQubitGateWrapper.unwrap()` for a *single* (non-list) noise: the sub-operations carry `NoNoise`, an extra `Identity`
+    carries the noise — inserted at index 0 if `After gate` (so that after the final reversal it is applied last), appended
+    otherwise (applied first) -/
+def unwrapSingle (operations : List Kind) (noise : NoiseM) : List (Kind × NoiseM) :=
+  let gates : List (Kind × NoiseM) := operations.map fun k => (k, NoiseM.none)
+  let idop : Kind × NoiseM := (Kind.identity, noise)
+  (if noise.after then idop :: gates else gates ++ [idop]).reverse
+
 /-- `_noisy_gates`: the `op.noise` each operation of the slim sequence receives (`none` = `KeyError`: the map has no entry
     for the register-type pair) -/
 def noisyGate (mapE mapP : NoiseMapFor) (mapCtl : RegT → RegT → Option NoiseMapFor) (op : WOp) : Except Err (List NoiseM) :=
